@@ -4,11 +4,14 @@ package harness
 
 import (
 	"net/netip"
+	"strings"
 	"testing"
+	"time"
 
 	"github.com/irai/packet"
 	"pgregory.net/rapid"
 	"verifharness/drv"
+	"verifharness/gen"
 	"verifharness/ref"
 )
 
@@ -295,4 +298,71 @@ func TestC15(t *testing.T) {
 		}
 		rec.NonTrivial(drv.HashJSON(c), func() interface{} { return c })
 	})
+	// (6) messages completed by the send functions, several in a row on one session (the transmit and scratch
+	// buffers are pooled: what the previous message left behind must not leak into the next checksum)
+	type sendCase struct {
+		Sends []struct {
+			K   string `json:"k"` // echo4 echo6 ns na rs ra
+			A   int    `json:"a"`
+			ID  uint16 `json:"id"`
+			Seq uint16 `json:"seq"`
+		} `json:"sends"`
+	}
+	drv.Prop(t, rec, "send-functions", 400, 12000, func(t *rapid.T) sendCase {
+		var c sendCase
+		for i := rapid.IntRange(2, 12).Draw(t, "nsends"); i > 0; i-- {
+			c.Sends = append(c.Sends, struct {
+				K   string `json:"k"`
+				A   int    `json:"a"`
+				ID  uint16 `json:"id"`
+				Seq uint16 `json:"seq"`
+			}{rapid.SampledFrom([]string{"echo4", "echo6", "echo6", "ns", "na", "rs", "ra"}).Draw(t, "k"), rapid.IntRange(0, 3).Draw(t, "a"), rapid.Uint16().Draw(t, "id"), rapid.Uint16().Draw(t, "seq")})
+		}
+		return c
+	}, func(tb drv.TB, c sendCase) {
+		rec.Eval()
+		drv.Begin("C15", "send-functions", 'J', mustJSON(c), 20*time.Second)
+		defer drv.End()
+		w := gen.DefaultWorld()
+		s, conn := newSession(defaultNIC())
+		defer closeSession(s)
+		host4 := packet.Addr{MAC: hw(w.HostMAC), IP: w.HostIP}
+		host6 := packet.Addr{MAC: hw(w.HostMAC), IP: w.HostLLA}
+		for i, sd := range c.Sends {
+			cl := w.Clients[sd.A%4]
+			dst4 := packet.Addr{MAC: hw(cl), IP: netip.AddrFrom4([4]byte{192, 168, 0, byte(40 + sd.A)})}
+			lla := netip.MustParseAddr("fe80::40").As16()
+			lla[15] = byte(0x40 + sd.A)
+			dst6 := packet.Addr{MAC: hw(cl), IP: netip.AddrFrom16(lla)}
+			if p, sig, st := drv.Catch(func() {
+				switch sd.K {
+				case "echo4":
+					s.ICMP4SendEchoRequest(host4, dst4, sd.ID, sd.Seq)
+				case "echo6":
+					s.ICMP6SendEchoRequest(host6, dst6, sd.ID, sd.Seq)
+				case "ns":
+					s.ICMP6SendNeighbourSolicitation(host6, dst6, dst6.IP)
+				case "na":
+					s.ICMP6SendNeighborAdvertisement(host6, dst6, host6)
+				case "rs":
+					s.ICMP6SendRouterSolicitation()
+				case "ra":
+					pfx := []packet.PrefixInformation{{PrefixLength: 64, OnLink: true, AutonomousAddressConfiguration: true, ValidLifetime: time.Duration(sd.ID) * time.Second, PreferredLifetime: time.Duration(sd.Seq) * time.Second, Prefix: netip.MustParseAddr("2001:db8::").AsSlice()}}
+					s.ICMP6SendRouterAdvertisement(pfx, nil, packet.Addr{MAC: hw(ref.MAC{0x33, 0x33, 0, 0, 0, 1}), IP: netip.MustParseAddr("ff02::1")})
+				}
+			}); p != nil {
+				rec.Violation(tb, "send-functions", sig, c, "send %d (%s) panicked: %v\n%s", i, sd.K, p, st)
+				return
+			}
+			for _, f := range conn.Take() {
+				_, sig, msg := decodeSent(f.B, w.HostMAC, true)
+				if strings.Contains(sig, "checksum") {
+					rec.Violation(tb, "send-functions", "send-"+sig, c, "send %d (%s): %s", i, sd.K, msg)
+					return
+				}
+			}
+		}
+		rec.NonTrivial(drv.HashJSON(c), func() interface{} { return c })
+	})
+
 }
